@@ -253,6 +253,10 @@ class Ctx:
         self.extra = {}
         self.struct_checks = 0
         self.struct_ok = 0
+        import threading
+        self.lock = threading.Lock()
+        self.cross = {'posed': 0, 'agree': 0, 'disagree': 0, 'cvc5_unknown': 0, 'seconds': 0.0}
+        self.enc_compared = 0
 
     def quick(self):
         return self.tier == 'quick'
@@ -300,6 +304,23 @@ class Ctx:
     def solve(self, S, kind, label, assertions, expect='unsat', cfg=None, key=None, pred=None, detail=None):
         """pose one obligation; on the wrong definite answer register a finding; on unknown/error register inconclusive"""
         ans, dt, _ = S.check(assertions)
+        # thorough tier: every 40th obligation of a session is re-decided by cvc5 (second opinion on the encoding)
+        x = getattr(S, 'cross', None)
+        if x is not None and ans in ('sat', 'unsat'):
+            S.n_cross = getattr(S, 'n_cross', 0) + 1
+            if S.n_cross % 40 == 1:
+                x.T = S.T
+                a2, d2, _ = x.check(assertions)
+                with self.lock:
+                    self.cross['posed'] += 1
+                    self.cross['seconds'] += d2
+                    if a2 == ans:
+                        self.cross['agree'] += 1
+                    elif a2 in ('sat', 'unsat'):
+                        self.cross['disagree'] += 1
+                        self.inconclusive.append('solver disagreement on %s: z3 %s, cvc5 %s' % (label, ans, a2))
+                    else:
+                        self.cross['cvc5_unknown'] += 1
         smt = '\n'.join('(assert %s)' % a for a in assertions)
         ok = self.D.record(kind, label, ans, dt, expect, smt)
         if not ok:
@@ -381,6 +402,7 @@ def finish(ctx, assumptions, functions, bounds, outside, rule):
         'known_findings_hit': [kf.get('key') for _, kf in known_hits],
         'inconclusive': (ctx.inconclusive + [str(x) for x in ctx.D.inconclusive])[:20],
         'notes': ctx.notes[:20],
+        'cvc5_cross_check': ctx.cross, 'two_encoding_runs_compared': ctx.enc_compared,
     }
     coverage.update(ctx.extra)
     write_evidence(ctx.pid, ctx.tier, ctx.seed, time.time() - ctx.t0, coverage, assumptions, violations=len(violations))
@@ -397,10 +419,22 @@ def parallel_cases(ctx, cases, analyse, workers=14, enc=0):
         run = Run(d)
         S = Session('z3', ctx.D.timeout_s)
         S.T = run.T
+        if not ctx.quick() and os.environ.get('VERIF_NO_CVC5') != '1':
+            S.cross = Session('cvc5', 60)
         try:
             analyse(ctx, case, run, S)
         finally:
             S.close()
+            if getattr(S, 'cross', None) is not None:
+                S.cross.close()
+        if not ctx.quick():
+            # assumption A3 (opaque 32-byte elements), checked: the same scenario under the second handle encoding must take the
+            # same control flow and give the same results
+            d2 = run_symx(case['cfg'], ctx.seed, 1 - enc)
+            if json.dumps(d2['out'], sort_keys=True) != json.dumps(d['out'], sort_keys=True):
+                ctx.inconclusive.append('A3 violated: results depend on the byte encoding of symbolic elements for %s' % json.dumps(case['cfg'])[:200])
+            with ctx.lock:
+                ctx.enc_compared += 1
         return True
     with concurrent.futures.ThreadPoolExecutor(max_workers=workers) as ex:
         futs = [ex.submit(work, c) for c in cases]
